@@ -6,6 +6,7 @@
                            lx_loop computes when every block parses and every content is
                            copied whole): the id -> name map and the pieces delivered.
    Definitions only; proofs in LinearRoundTripPure.v / LinearRoundTrip.v. *)
+From MLA Require Import Limit.
 From MLA Require Import Base Stream Blocks Reader.
 Open Scope N_scope.
 
